@@ -352,12 +352,7 @@ func stageLayering(c *an.Ctx, rule string) {
 		return
 	}
 	cfg := chainCfg(c.P)
-	var stage *ssa.Parameter
-	for _, prm := range f.Params {
-		if an.TypeIs(prm.Type(), "pkg/scheduler", "Stage") {
-			stage = prm
-		}
-	}
+	stage := stageOf(f)
 	if stage == nil {
 		c.Und(rule, an.Short(f)+":stage", f.Pos(), "runner caller has no stage parameter")
 		return
@@ -398,10 +393,8 @@ func stageLayering(c *an.Ctx, rule string) {
 		target = alloc
 		builder = alloc.Parent()
 		// the stage as the builder sees it
-		for _, prm := range builder.Params {
-			if an.TypeIs(prm.Type(), "pkg/scheduler", "Stage") {
-				stage = prm
-			}
+		if bs := stageOf(builder); bs != nil {
+			stage = bs
 		}
 	}
 	fresh, copied := an.FreshBase(target)
@@ -414,6 +407,21 @@ func stageLayering(c *an.Ctx, rule string) {
 					ap := an.AccessPath(st.Val)
 					if ap.LastField() == "Task" && an.SameValue(ap.Base, stage) {
 						copyOfTask = true
+					}
+					// (the stage itself may have been read from a field of a work item: compare the object the Task field is read from)
+					v := st.Val
+					for k := 0; k < 3; k++ {
+						u, ok := v.(*ssa.UnOp)
+						if !ok || u.Op != token.MUL {
+							break
+						}
+						if fa, ok := u.X.(*ssa.FieldAddr); ok {
+							if an.TypeField(fa) == "Stage.Task" && an.SameValue(fa.X, stage) {
+								copyOfTask = true
+							}
+							break
+						}
+						v = u.X
 					}
 				}
 			}
@@ -575,4 +583,61 @@ func builtByConstructorCall(fn *ssa.Function, v ssa.Value) bool {
 		}
 	}
 	return true
+}
+
+// stageOf returns the stage a function works for: its *Stage parameter, or —
+// when the stage is carried in a struct the function receives (a work item
+// with a stage field) — the one value loaded from that field.
+func stageOf(f *ssa.Function) ssa.Value {
+	for _, prm := range f.Params {
+		if an.TypeIs(prm.Type(), "pkg/scheduler", "Stage") {
+			return prm
+		}
+	}
+	var found ssa.Value
+	n := 0
+	an.EachInstr(f, func(in ssa.Instruction) {
+		var base ssa.Value
+		var v ssa.Value
+		switch x := in.(type) {
+		case *ssa.UnOp:
+			if fa, ok := x.X.(*ssa.FieldAddr); ok && x.Op == token.MUL {
+				base, v = fa.X, x
+			}
+		case *ssa.Field:
+			base, v = x.X, x
+		}
+		if v == nil || !an.TypeIs(v.Type(), "pkg/scheduler", "Stage") {
+			return
+		}
+		if _, isPtr := v.Type().Underlying().(*types.Pointer); !isPtr {
+			return
+		}
+		// the struct is a parameter, or the local a value parameter was spilled into
+		fromParam := false
+		for _, r := range an.ResolveAll(base) {
+			switch y := r.(type) {
+			case *ssa.Parameter:
+				fromParam = true
+			case *ssa.Alloc:
+				if y.Referrers() != nil {
+					for _, ref := range *y.Referrers() {
+						if st, ok := ref.(*ssa.Store); ok && st.Addr == ssa.Value(y) {
+							if _, isPrm := st.Val.(*ssa.Parameter); isPrm {
+								fromParam = true
+							}
+						}
+					}
+				}
+			}
+		}
+		if fromParam {
+			found = v
+			n++
+		}
+	})
+	if n == 1 {
+		return found
+	}
+	return nil
 }
